@@ -25,5 +25,22 @@ static inline int vp_assemble(AsmContext *ctx, const char *src)
   e = vp_pass(ctx, src, 2);
   return e;
 }
+// same flow with the source in a (virtual) file, as naken_asm reads it; needed when .include is used
+static inline int vp_assemble_file(AsmContext *ctx, const char *name, const char *src)
+{
+  symx_file_put(name, src, strlen(src));
+  ctx->quiet_output = true;
+  if (tokens_open_file(ctx, name) != 0) return -100;
+  ctx->pass = 1; ctx->init();
+  int e = ctx->assemble();
+  if (e == 0)
+  {
+    ctx->symbols.lock(); ctx->symbols.scope_reset();
+    ctx->pass = 2; ctx->init();
+    e = ctx->assemble();
+  }
+  tokens_close(ctx);
+  return e;
+}
 static inline char *vp_append(char *dst, const char *s) { while (*s) *dst++ = *s++; *dst = 0; return dst; }
 #endif
